@@ -57,6 +57,8 @@ type world struct {
 	// guarded struct (origin named type) -> info
 	guarded map[*types.TypeName]*gtype
 	written map[*types.Var]bool // fields written somewhere outside composite literals
+	// fields marked written for a reason refineWritten cannot re-examine (through a summary)
+	writtenHard map[*types.Var]bool
 	summ    map[*types.Func]*summary
 	locking map[*types.Func]bool
 	warns   []string
@@ -249,6 +251,12 @@ type summary struct {
 	perResult map[int]*summary
 }
 
+type callRec struct {
+	callee *types.Func
+	param  int
+	fresh  bool
+}
+
 // ---------- the per-function walker ----------
 
 type ctx struct {
@@ -262,13 +270,18 @@ type ctx struct {
 	fnArgs map[int]func() string
 	// parameters of type *sync.RWMutex that the caller bound to the mutex of its guarded instance
 	// (withLock(&q.mu, f), defer locked(&q.mu)()): lock operations on them are the instance's
-	muArgs map[int]bool
+	muArgs map[int]int // 1: the mutex itself (*sync.RWMutex or sync.Locker), 2: its read view (RLocker())
 	// locals holding q.mu.RLocker(): Lock/Unlock on them are RLock/RUnlock
 	rlockers map[*types.Var]bool
 	// the function value the last inlined callee returned (an unlock closure), as a term; and locals
 	// such values were assigned to
 	lastRetFunc string
 	funcVals    map[*types.Var]string
+	// refineWritten: for every assignment `v.f = ...` walked, is v an object nobody else can see yet
+	// (0 no, 1 yes, 2+i: v is parameter i — depends on the callers); and for every call of a module
+	// function, which arguments are such objects
+	siteLog map[ast.Expr]int
+	callLog *[]callRec
 	// the statement being translated is a direct child of the function body (runs unconditionally)
 	topLevel bool
 	// a, b := f(): while the i-th left-hand side is assigned, the i-th result of f is meant (-1: any)
@@ -736,20 +749,26 @@ func (c *ctx) lockOp(call *ast.CallExpr) string {
 	if name != "Lock" && name != "Unlock" && name != "RLock" && name != "RUnlock" {
 		return ""
 	}
-	if id, isId := ast.Unparen(se.X).(*ast.Ident); isId && (name == "Lock" || name == "Unlock") {
-		if v, isVar := c.info().ObjectOf(id).(*types.Var); isVar && c.rlockers[v] {
-			return "AR" + name // l := q.mu.RLocker(); l.Lock()
+	if id, isId := ast.Unparen(se.X).(*ast.Ident); isId {
+		if v, isVar := c.info().ObjectOf(id).(*types.Var); isVar {
+			if (name == "Lock" || name == "Unlock") && c.rlockers[v] {
+				return "AR" + name // l := q.mu.RLocker(); l.Lock()
+			}
+			// a parameter (of type *sync.RWMutex or sync.Locker) the caller bound to the instance mutex
+			if pi, isParam := c.params[v]; isParam {
+				switch c.muArgs[pi] {
+				case 1:
+					return "A" + name
+				case 2:
+					if name == "Lock" || name == "Unlock" {
+						return "AR" + name
+					}
+				}
+			}
 		}
 	}
 	if !isRWMutex(c.typeOf(se.X)) {
 		return ""
-	}
-	if id, isId := ast.Unparen(se.X).(*ast.Ident); isId {
-		if v, isVar := c.info().ObjectOf(id).(*types.Var); isVar {
-			if pi, isParam := c.params[v]; isParam && c.muArgs[pi] {
-				return "A" + name
-			}
-		}
 	}
 	// se.X must be <instance>.mu ...
 	inner, ok := se.X.(*ast.SelectorExpr)
@@ -869,6 +888,32 @@ func (c *ctx) call(call *ast.CallExpr) string {
 		c.ext = true
 		ps = append(ps, act("AExt"))
 		return seq(ps)
+	}
+	if c.callLog != nil {
+		csig := callee.Type().(*types.Signature)
+		for i, a := range call.Args {
+			pi := i
+			if pi >= csig.Params().Len() {
+				pi = csig.Params().Len() - 1
+			}
+			fresh := false
+			switch x := ast.Unparen(a).(type) {
+			case *ast.Ident:
+				if v, ok := c.info().ObjectOf(x).(*types.Var); ok {
+					if _, isParam := c.params[v]; !isParam {
+						os, tracked := c.locals[v]
+						fresh = tracked && len(os) == 0
+					}
+				}
+			case *ast.UnaryExpr:
+				if _, isLit := x.X.(*ast.CompositeLit); isLit && x.Op == token.AND {
+					fresh = true
+				}
+			case *ast.CallExpr:
+				fresh = len(c.origins(x)) == 0
+			}
+			*c.callLog = append(*c.callLog, callRec{callee, pi, fresh})
+		}
 	}
 	// module callee: bind actuals to its parameters
 	actual := map[int]oset{}
@@ -1042,7 +1087,7 @@ func (c *ctx) isInstanceMutex(e ast.Expr) bool {
 	case *ast.Ident:
 		if v, ok := c.info().ObjectOf(x).(*types.Var); ok {
 			if pi, isParam := c.params[v]; isParam {
-				return c.muArgs[pi]
+				return c.muArgs[pi] == 1
 			}
 			for o := range c.locals[v] {
 				if _, ok := c.inst[o.param]; ok {
@@ -1055,27 +1100,42 @@ func (c *ctx) isInstanceMutex(e ast.Expr) bool {
 }
 
 // mutexArgs: parameter positions of call that receive the mutex of our guarded instance
-func (c *ctx) mutexArgs(call *ast.CallExpr, sig *types.Signature) map[int]bool {
-	var out map[int]bool
+func (c *ctx) mutexArgs(call *ast.CallExpr, sig *types.Signature) map[int]int {
+	var out map[int]int
 	for i, a := range call.Args {
+		mode := 0
 		t := c.typeOf(a)
-		if t == nil || !isRWMutex(t) {
-			continue
+		if t != nil && isRWMutex(t) {
+			if _, isPtr := t.Underlying().(*types.Pointer); isPtr && c.isInstanceMutex(a) {
+				mode = 1 // &q.mu, or a bound parameter handed on
+			}
 		}
-		if _, isPtr := t.Underlying().(*types.Pointer); !isPtr {
-			continue
+		switch x := ast.Unparen(a).(type) {
+		case *ast.CallExpr:
+			// q.mu.RLocker()
+			if se, ok := x.Fun.(*ast.SelectorExpr); ok && se.Sel.Name == "RLocker" && isRWMutex(c.typeOf(se.X)) && c.isInstanceMutex(se.X) {
+				mode = 2
+			}
+		case *ast.Ident:
+			if v, ok := c.info().ObjectOf(x).(*types.Var); ok {
+				if c.rlockers[v] {
+					mode = 2
+				} else if pi, isParam := c.params[v]; isParam && c.muArgs[pi] != 0 {
+					mode = c.muArgs[pi]
+				}
+			}
 		}
-		if !c.isInstanceMutex(a) {
+		if mode == 0 {
 			continue
 		}
 		if out == nil {
-			out = map[int]bool{}
+			out = map[int]int{}
 		}
 		idx := i
 		if idx >= sig.Params().Len() {
 			idx = sig.Params().Len() - 1
 		}
-		out[idx] = true
+		out[idx] = mode
 	}
 	return out
 }
@@ -1229,6 +1289,25 @@ func (c *ctx) assignTo(lhs ast.Expr, rhs ast.Expr, define bool) string {
 		return "SSkip"
 	}
 	ao := c.addrOrigins(lhs)
+	if c.siteLog != nil {
+		if se, ok := ast.Unparen(lhs).(*ast.SelectorExpr); ok {
+			if id, ok := ast.Unparen(se.X).(*ast.Ident); ok {
+				if v, ok := c.info().ObjectOf(id).(*types.Var); ok {
+					if pi, isParam := c.params[v]; isParam {
+						if _, isInst := c.inst[pi]; !isInst && pi >= 0 {
+							c.siteLog[lhs] = 2 + pi
+						} else {
+							c.siteLog[lhs] = 0
+						}
+					} else if os, tracked := c.locals[v]; tracked && len(os) == 0 && v.Parent() != nil && v.Pkg() != nil && v.Parent() != v.Pkg().Scope() {
+						c.siteLog[lhs] = 1
+					} else {
+						c.siteLog[lhs] = 0
+					}
+				}
+			}
+		}
+	}
 	if rhs != nil && c.topLevel {
 		c.transfer(ao, rhs)
 	}
@@ -1965,6 +2044,142 @@ func (w *world) findWritten() {
 	}
 }
 
+// refineWritten un-marks fields whose only writes initialise an object nobody else can see yet:
+//     it := &Item[V]{object: val}; it.expiration = ...; c.items[key] = it
+// (also when the initialising write sits in an unexported helper that every caller hands a fresh
+// object).  A field stays written if any site has another shape (a deeper path, &x.f, delete/copy, a
+// write through a summary), or writes through something that may already be shared — in particular
+// a stored object updated in place (item := c.items[k]; item.object = v) keeps its field written.
+func (w *world) refineWritten() {
+	type site struct {
+		fd  *funcDecl
+		lhs ast.Expr
+	}
+	sites := map[*types.Var][]site{}
+	bad := map[*types.Var]bool{}
+	for f := range w.writtenHard {
+		bad[f] = true
+	}
+	fieldsOf := func(pi *pkgInfo, e ast.Expr) (fs []*types.Var, direct bool) {
+		// the fields findWritten marks for this l-value; direct = the shape `ident.f`
+		depth := 0
+		for {
+			switch x := e.(type) {
+			case *ast.ParenExpr:
+				e = x.X
+				continue
+			case *ast.SelectorExpr:
+				if sel, ok := pi.info.Selections[x]; ok && sel.Kind() == types.FieldVal {
+					fs = append(fs, originVar(sel.Obj().(*types.Var)))
+					if len(sel.Index()) > 1 {
+						depth += 2
+					}
+					_, baseIdent := ast.Unparen(x.X).(*ast.Ident)
+					if depth == 0 && baseIdent {
+						return fs, true
+					}
+					depth++
+					if _, isPtr := pi.info.Types[x.X].Type.Underlying().(*types.Pointer); !isPtr {
+						e = x.X
+						continue
+					}
+				}
+				return fs, false
+			case *ast.IndexExpr:
+				depth++
+				e = x.X
+				continue
+			case *ast.SliceExpr:
+				depth++
+				e = x.X
+				continue
+			default:
+				return fs, false
+			}
+		}
+	}
+	for _, fd := range w.funcs {
+		fd := fd
+		note := func(e ast.Expr, assign bool) {
+			fs, direct := fieldsOf(fd.pi, e)
+			for _, f := range fs {
+				if assign && direct && len(fs) == 1 {
+					sites[f] = append(sites[f], site{fd, e})
+				} else {
+					bad[f] = true
+				}
+			}
+		}
+		ast.Inspect(fd.decl.Body, func(n ast.Node) bool {
+			switch x := n.(type) {
+			case *ast.AssignStmt:
+				for _, l := range x.Lhs {
+					note(l, true)
+				}
+			case *ast.IncDecStmt:
+				note(x.X, true)
+			case *ast.UnaryExpr:
+				if x.Op == token.AND {
+					if _, isLit := x.X.(*ast.CompositeLit); !isLit {
+						note(x.X, false)
+					}
+				}
+			case *ast.CallExpr:
+				if id, ok := x.Fun.(*ast.Ident); ok {
+					if _, isB := fd.pi.info.ObjectOf(id).(*types.Builtin); isB && len(x.Args) > 0 && (id.Name == "delete" || id.Name == "copy") {
+						note(x.Args[0], false)
+					}
+				}
+			}
+			return true
+		})
+	}
+	// walk every function once, flow-sensitively, with the logs on
+	var calls []callRec
+	logs := map[*funcDecl]map[ast.Expr]int{}
+	for _, fd := range w.funcs {
+		c := w.newCtx(fd)
+		c.siteLog = map[ast.Expr]int{}
+		c.callLog = &calls
+		c.function()
+		logs[fd] = c.siteLog
+	}
+	// parameters that only ever receive objects nobody else can see (unexported functions only)
+	type pkey struct {
+		fn *types.Func
+		i  int
+	}
+	seen, notFresh := map[pkey]bool{}, map[pkey]bool{}
+	for _, r := range calls {
+		k := pkey{r.callee, r.param}
+		seen[k] = true
+		if !r.fresh {
+			notFresh[k] = true
+		}
+	}
+	for f, ss := range sites {
+		if bad[f] || !w.written[f] {
+			continue
+		}
+		ok := true
+		for _, st := range ss {
+			v, logged := logs[st.fd][st.lhs]
+			switch {
+			case !logged || v == 0:
+				ok = false
+			case v >= 2:
+				k := pkey{st.fd.obj, v - 2}
+				if st.fd.obj.Exported() || !seen[k] || notFresh[k] {
+					ok = false
+				}
+			}
+		}
+		if ok && len(ss) > 0 {
+			delete(w.written, f)
+		}
+	}
+}
+
 func (w *world) findLocking() {
 	// direct: body contains a lock op on an RWMutex field
 	direct := map[*types.Func]bool{}
@@ -1972,9 +2187,21 @@ func (w *world) findLocking() {
 	for fn, fd := range w.funcs {
 		c := w.newCtx(fd)
 		ast.Inspect(fd.decl.Body, func(n ast.Node) bool {
+			// taking the address of the mutex of a guarded struct (mu := &q.mu; withLock(&q.mu, f)) or a
+			// view of it (q.mu.RLocker()) announces lock operations through an alias
+			if u, ok := n.(*ast.UnaryExpr); ok && u.Op == token.AND {
+				if inner, ok := ast.Unparen(u.X).(*ast.SelectorExpr); ok && isRWMutex(c.typeOf(inner)) && w.gtypeOf(c.typeOf(inner.X)) != nil {
+					direct[fn] = true
+				}
+			}
 			if call, ok := n.(*ast.CallExpr); ok {
 				if se, ok := call.Fun.(*ast.SelectorExpr); ok {
 					nm := se.Sel.Name
+					if nm == "RLocker" && isRWMutex(c.typeOf(se.X)) {
+						if inner, ok := ast.Unparen(se.X).(*ast.SelectorExpr); ok && w.gtypeOf(c.typeOf(inner.X)) != nil {
+							direct[fn] = true
+						}
+					}
 					if (nm == "Lock" || nm == "Unlock" || nm == "RLock" || nm == "RUnlock") && isRWMutex(c.typeOf(se.X)) {
 						// only mutexes that are fields of a guarded struct count
 						if inner, ok := se.X.(*ast.SelectorExpr); ok {
@@ -2112,6 +2339,7 @@ func (w *world) summarise() {
 							if inner, ok := se.X.(*ast.SelectorExpr); ok {
 								if sel, ok := pi.info.Selections[inner]; ok && sel.Kind() == types.FieldVal {
 									fv := originVar(sel.Obj().(*types.Var))
+									w.writtenHard[fv] = true
 									if !w.written[fv] {
 										w.written[fv] = true
 										changed = true
@@ -2131,6 +2359,7 @@ func (w *world) summarise() {
 								if inner, ok := a.(*ast.SelectorExpr); ok {
 									if sel, ok := pi.info.Selections[inner]; ok && sel.Kind() == types.FieldVal {
 										fv := originVar(sel.Obj().(*types.Var))
+										w.writtenHard[fv] = true
 										if !w.written[fv] {
 											w.written[fv] = true
 											changed = true
@@ -2239,7 +2468,7 @@ func main() {
 		os.Exit(2)
 	}
 	w := &world{fset: token.NewFileSet(), pkgs: map[string]*pkgInfo{}, funcs: map[*types.Func]*funcDecl{},
-		guarded: map[*types.TypeName]*gtype{}, written: map[*types.Var]bool{}, summ: map[*types.Func]*summary{},
+		guarded: map[*types.TypeName]*gtype{}, written: map[*types.Var]bool{}, writtenHard: map[*types.Var]bool{}, summ: map[*types.Func]*summary{},
 		locking: map[*types.Func]bool{}}
 	w.std = importer.ForCompiler(w.fset, "source", nil)
 	for _, d := range pkgDirs {
@@ -2256,6 +2485,12 @@ func main() {
 	w.findWritten()
 	w.findLocking()
 	w.summarise()
+	before := len(w.written)
+	w.refineWritten()
+	if len(w.written) != before {
+		w.summ = map[*types.Func]*summary{}
+		w.summarise()
+	}
 
 	var out strings.Builder
 	out.WriteString("(* GENERATED by harness/cmd/skel from the Go source of the tree under test — do not edit. *)\n")
